@@ -5,6 +5,10 @@ ROOT = os.path.dirname(os.path.dirname(os.path.abspath(__file__)))
 
 # id -> (technique, level text, level note, design ref)
 CHECKS = {
+ "C02": ("differential against a reference evaluator written from the documentation: exhaustive operator-pair matrix with model-searched discriminating operands, hand-written table of the documented undefined/type rules, laziness cases with poison operands, and proptest-generated expressions over all forms, each rendered in three spellings (minimal parentheses per the documented precedence table, fully parenthesised, noisy: redundant parentheses + random whitespace/newlines/quote styles)",
+         "Exploration: 906 operator pairings (every ordered pair of the 18 binary operators, prefix/postfix/filter/test/ternary against each) of which all distinguishable ones are checked on operands where the two groupings differ; 100-row table of documented rules; 195 laziness cases; 650k generated expressions x 3 spellings (quick; x25 thorough) over contexts binding 15 free variables to their nominal kind, another kind or nothing, with integers in random encodings.",
+         "Trusted base: the reference evaluator (harness/src/expr.rs) and the built-in references of C17. Outcomes the documentation leaves open are discarded and counted (undefined as operand of ==/!=/~/in, undefined stored in literals, map iteration order, open built-in contracts). Depth bounded by 18 of the parser's 40.",
+         "DESIGN.md section 4 C02"),
  "C13": ("differential against an exact reference (checked/256-bit integer arithmetic, exact float-vs-integer comparison) over an exhaustive boundary grid in every engine encoding plus proptest-generated pairs; metamorphic re-encoding",
          "Exploration: every ordered pair of a 450-value boundary grid (each integer in every encoding that can hold it, floats around every power-of-two boundary, NaN/inf/-0) under all 13 operators and negation is enumerated completely, then 400k (quick) / 16M (thorough) random pairs; the oracle is exact, so any wrapped, truncated, mis-compared or encoding-dependent result inside the explored space is reported.",
          "Trusted base: Rust std checked i128 arithmetic and f64 operations used by the reference; float // % ** are compared against std div_euclid/rem_euclid/powf. Not a proof for all 2^256 pairs.",
@@ -79,6 +83,6 @@ def main():
     json.dump(m, open(os.path.join(ROOT, "MANIFEST.json"), "w"), indent=1)
     print("wrote MANIFEST.json with", len(checks), "checks,", len(na), "not_applicable")
 
-HOOK_COMMITS = []
+HOOK_COMMITS = ["d2cf280"]
 if __name__ == "__main__":
     main()
